@@ -25,33 +25,39 @@ def const_value(prog, t):
     return None
 
 
-def _accept_interval(prog, cond, positive):
+def _accept_interval(prog, cond, positive, is_var=None):
     """Interval of `v` (parameter 0) for which cond is true (positive) / false (not positive); None if it is not an
     interval or the condition has an unknown form.  +-inf as None bounds."""
     INF = float("inf")
     if cond.k == "un" and cond.a[0] == "Not":
-        return _accept_interval(prog, cond.a[1], not positive)
+        return _accept_interval(prog, cond.a[1], not positive, is_var)
     if cond.k == "logic":
-        a = _accept_interval(prog, cond.a[1], positive)
-        b = _accept_interval(prog, cond.a[2], positive)
+        a = _accept_interval(prog, cond.a[1], positive, is_var)
+        b = _accept_interval(prog, cond.a[2], positive, is_var)
         conj = (cond.a[0] == "And") == positive      # And/true and Or/false are conjunctions of the parts
         if not conj or a is None or b is None:
             return None
         return (max(a[0], b[0]), min(a[1], b[1]))
     if cond.k == "bin" and cond.a[0] in ("Lt", "Le", "Gt", "Ge"):
         op, a, b = cond.a
+        if is_var is not None:
+            while a.k == "cast":
+                a = a.a[1]
+            while b.k == "cast":
+                b = b.a[1]
+        isv = is_var or (lambda x: x.k == "param" and x.a[0] == 0)
         av, bv = const_value(prog, a), const_value(prog, b)
-        if b.k == "param" and av is not None and a.k != "param":
+        if (isv(b) if is_var is not None else b.k == "param") and av is not None and not (isv(a) if is_var is not None else a.k == "param"):
             op = {"Lt": "Gt", "Le": "Ge", "Gt": "Lt", "Ge": "Le"}[op]
             a, b, av, bv = b, a, bv, av
-        if not (a.k == "param" and a.a[0] == 0 and bv is not None):
+        if not (isv(a) and bv is not None):
             return None
         if not positive:
             op = {"Lt": "Ge", "Le": "Gt", "Gt": "Le", "Ge": "Lt"}[op]
         return {"Lt": (-INF, bv - 1), "Le": (-INF, bv), "Gt": (bv + 1, INF), "Ge": (bv, INF)}[op]
     if cond.k == "call" and cond.a[0].endswith("::contains") and "ops::range::Range" in cond.a[0] and len(cond.a) == 3 and positive:
         r, v = cond.a[1], cond.a[2]
-        if not (v.k == "param" and v.a[0] == 0):
+        if not ((is_var(v) if is_var is not None else (v.k == "param" and v.a[0] == 0))):
             return None
         lo = hi = None
         if r.k == "adt" and r.a[1] == "Range":
